@@ -8,7 +8,8 @@ Abstraction maps (DESIGN 3.10, kept trivial):
        variations that normalise to the edition)
   atom a,b,c,d,z -> Kappa, Lomax, Mirren, Noxon, Zeta  (no word is a substring of another,
        so Python `in` on the rendered names is set membership of atoms)
-  pg   n -> str(n), NoPage(-1) -> "___" (placeholder, becomes None), NoGroup(-2) -> no page group
+  pg   n -> str(n), NoPage(-1) -> "___" (placeholder, becomes None), NoGroup(-2) -> no page group,
+       NonNumeric(-3) / Big(-4) -> the text in `id`, Huge(-5) -> 5,000 digits
   pin  n -> "at n", NoPin(-1) -> None, BadPin(-2) -> "at ¶ 10"
 projection: resolution dict -> list of groups, each a list of 1-based input positions
   (object identity via id(); an object that is not in the input projects to -1).
@@ -51,6 +52,8 @@ def make(sym, pos):
         found = VARIANT[rep] if pos % 2 == 1 else None
         if k == "fc":
             pg = "___" if sym["pg"] == -1 else str(sym["pg"])
+            if sym["pg"] in (-3, -4, -5):           # a page identified by its text (NonNumeric / Big / Huge)
+                pg = "1" * 5000 if sym["id"] == "huge" else sym["id"]
             md = {"plaintiff": name(sym["pl"]), "defendant": name(sym["df"]), "year": "1999",
                   "court": "ca2"}
             return res_cite(FullCaseCitation, f"{vol} {found or rep} {pg}", rep,
@@ -125,6 +128,27 @@ def run(payload):
     return res
 
 
+def page_class(pg):
+    """page group -> Resolve.tla page: number (< 10^9), NoPage -1, NonNumeric -3, Big -4 (all digits, beyond
+    every pin cite, int() converts it), Huge -5 (more digits than int() converts)"""
+    import sys
+    if pg is None:
+        return -1
+    t = str(pg)
+    if not t.isdigit():
+        return -3
+    if len(t) < 9:
+        return int(t)
+    limit = sys.get_int_max_str_digits() if hasattr(sys, "get_int_max_str_digits") else 0
+    return -5 if limit and len(t) > limit else -4
+
+
+def page_text(pg):
+    import hashlib
+    t = str(pg)
+    return t if len(t) <= 40 else f"{len(t)}:{hashlib.sha1(t.encode('utf8', 'surrogatepass')).hexdigest()[:12]}"
+
+
 def abstract_extracted(cs):
     """Abstract citations returned by get_citations into Resolve.tla records (ground truth for the
     monitors is read off the extracted attributes, never off the resolution):
@@ -152,15 +176,14 @@ def abstract_extracted(cs):
             rec["rv"] = f"{c.corrected_reporter()}|{c.groups.get('volume')}"
         if isinstance(c, FullCaseCitation):
             pg = c.groups.get("page")
-            rec.update(k="fc", pg=(-1 if pg is None else (int(pg) if str(pg).isdigit() and len(str(pg)) < 9 else -3)),
-                       pl=names(c.metadata.plaintiff), df=names(c.metadata.defendant))
-            if rec["pg"] == -3:
-                rec["id"] = str(pg)       # non-numeric page: identity by its text
+            rec.update(k="fc", pg=page_class(pg), pl=names(c.metadata.plaintiff), df=names(c.metadata.defendant))
+            if rec["pg"] in (-3, -4, -5):
+                rec["id"] = page_text(pg)       # identity by its text
         elif isinstance(c, (FullLawCitation, FullJournalCitation)):
             pg = c.groups.get("page") if "page" in c.groups else "nogroup"
             rec.update(k="fl" if isinstance(c, FullLawCitation) else "fj",
                        id=repr(sorted((k, str(v)) for k, v in c.groups.items())) + repr(sorted(e.short_name for e in c.all_editions)),
-                       pg=(-2 if pg == "nogroup" else -1 if pg is None else (int(pg) if str(pg).isdigit() and len(str(pg)) < 9 else -3)))
+                       pg=(-2 if pg == "nogroup" else page_class(pg)))
         elif isinstance(c, ShortCaseCitation):
             a = c.metadata.antecedent_guess
             rec.update(k="sc", ag=atom[strip_punct(a)] if a else "-")
